@@ -10,9 +10,14 @@
    work item, release and ClusterCIDR work item; (3) the entries offered to an allocation exclude terminating ones, with
    or without selector, and in every step of every history the pod CIDRs of a PATCH are taken from an entry that is not
    terminating.
+   The first half over histories: in every world of every valid history (the C01 universe: tombstones and relists at any time,
+   restarts, pre-set pod CIDRs) in which the informers run, every pod CIDR held by an existing node is still reserved in an
+   entry the node is associated with, or shown by the node store (which keeps it from being handed out) -- in particular right
+   after any step that took the finalizer off a ClusterCIDR and unmapped its entry: an entry is unmapped only when no node is
+   associated with it, so no holder's reservation lived there.
    Not proved (monitored): that releases of a node happen only when the node is gone or being deleted
    -- the world-level glue, same residue as C01. *)
-From NIPAM Require Import Resv_proofs Sys Alloc_proofs Inv_proofs Sys_proofs World_proofs Path_proofs Svc_proofs Term_proofs Uniq_proofs.
+From NIPAM Require Import Resv_proofs Sys Alloc_proofs Inv_proofs Sys_proofs World_proofs Path_proofs Svc_proofs Term_proofs Uniq_proofs Hist2_proofs Hist3_proofs Hist4_proofs.
 From Coq Require Import Lia.
 Open Scope N_scope.
 
@@ -128,3 +133,14 @@ Proof.
   repeat constructor; cbn; try (intros ? E; discriminate E);
     try (unfold good_obj, good_field, good_range, wf_cidr; cbn; repeat split; try lia; try discriminate; intros [? _]; discriminate).
 Qed.
+
+(* ---------- the first half over histories ---------- *)
+Theorem C06_every_holder_stays_protected_in_every_history :
+  forall po lab ops, valid4 po lab init_world ops ->
+  let w := run po lab init_world ops in
+  w_synced w = true -> forall nm c, holder w nm c -> reserved w nm c \/ cached_c w nm c.
+Proof.
+  intros po lab ops H w Hs nm c Hh.
+  exact (h_prot w (j_h w (valid4_jinv po lab ops init_world (jinv_init) H)) Hs nm c Hh).
+Qed.
+Print Assumptions C06_every_holder_stays_protected_in_every_history.
